@@ -34,11 +34,19 @@ RAW_PACKETS = (0, 1, 100, 4095, 4096, 5000, 32768, 1 << 20, (1 << 32) - 1)
 
 
 def sim_kw(seed):
-    return {"max_steps": 6_000_000, "max_time": 7200.0}
+    kw = {"max_steps": 6_000_000, "max_time": 7200.0}
+    if seed % 3 == 0:
+        # bytecode-level pre-emption inside channel.py (right before stores to shared state such as the window counters)
+        import paramiko.channel as ch_mod
+        kw.update(trace_files={ch_mod.__file__}, trace_opcodes=True)
+    return kw
 
 
 def scenario(sim):
     sim.p_switch = (0.02, 0.1, 0.3)[sim.choose(3)]
+    if sim.trace_opcodes:
+        sim.p_preempt_store = (0.002, 0.01, 0.05)[sim.choose(3)]
+        sim.max_preempt = (2, 4, 8)[sim.choose(3)]
     lat = (0.0, 0.005, 0.1)[sim.choose(3)]
     byz = sim.choose(3) == 0
     raw = {}
